@@ -1,5 +1,14 @@
+import atexit
+import os
 import sys
+
 from vf.core import main
 
 if __name__ == "__main__":
-    sys.exit(main(sys.argv[1:]))
+    rc = main(sys.argv[1:])
+    sys.stdout.flush()
+    sys.stderr.flush()
+    # run our own cleanup (scratch directories), then leave without joining worker threads: a scenario that proved a
+    # deadlock leaves pool threads blocked for ever, and the interpreter's normal shutdown would wait for them.
+    atexit._run_exitfuncs()
+    os._exit(rc)
